@@ -3,7 +3,7 @@ import re
 
 from engine.util import *
 from rules.rfs import *
-from rules.c06 import pattern_templates, name_pattern
+from rules.c06 import pattern_templates, name_pattern, regex_patterns
 
 LEVEL = "other"
 MIN_OBLIGATIONS = 22
@@ -69,6 +69,8 @@ def run(ck):
 
     def role_of(fn, a):
         a = deref_local(fn, a)
+        from engine.strabs import OWNER
+        fn = OWNER.get(id(a), fn)
         if is_call(a, "QRegularExpression::escape"):
             a = deref_local(fn, a["args"][0])
         if is_call(a, "QFileInfo::completeBaseName"):
@@ -106,6 +108,7 @@ def run(ck):
         if s.endswith("(\\.gz)?"):
             s = s[:-len("(\\.gz)?")]
         toks = []
+        s = re.sub(r"\((%\d)\)", r"\1", s)   # a capturing group around one run-time piece
         for part in re.split(r"(%\d|\(\\d\{4\}-\\d\{2\}-\\d\{2\}\)|\\d\{4\}-\\d\{2\}-\\d\{2\}|\(\\d\+\)|\\d\+|\\\.)", s):
             if not part:
                 continue
@@ -126,7 +129,7 @@ def run(ck):
     want = [["base", ".", "date", ".", "index"], ["base", ".", "date", ".", "index", ".", "suffix"]]
     ck.ob("C09-O3", sitestr(gnf), wtoks == want, "rotated name = base.date.index[.suffix] with date yyyy-MM-dd" if wtoks == want else "rotated name templates are %s" % wtoks, key="generateRotatedFileName|scheme")
     for fn, nm in ((fi, "findNextIndexForDate"), (frf, "findRotatedFiles")):
-        tp = [x for x in pattern_templates(fn) if x[0].startswith("^") or "\\d" in x[0]]
+        tp = [x for x in regex_patterns(F, fn) if x[0].startswith("^") or "\\d" in x[0]]
         rtoks = sorted((tokens_reader(t, a, fn) for t, a, n in tp), key=len)
         ck.ob("C09-O3", sitestr(fn), rtoks == wtoks, "%s reads exactly the names generateRotatedFileName writes (both variants)" % nm if rtoks == wtoks else
               "%s reads %s but names are written as %s" % (nm, rtoks, wtoks), key="%s|scheme-mismatch" % nm)
@@ -330,7 +333,13 @@ def next_index(ck, S, RULE):
                 a = gf.postdominated(hs, {us}, keep=keep_t) and us not in gf.reach([hs], blocked={cond}, keep=keep_f, include_start=False)
                 b = all(gf.postdominated(hs, {cond}, keep=kp) for kp in (keep_t, keep_f, gf.projector(atom_eq(value_pred(fi, hm[0]), False))))
                 strict = f.get("", 0) in (-1, 0) and op == ">="
-                okm = a and b and strict and const_int(cap[0]["args"][0]) == 1
+                from rules.c06 import regex_patterns
+                idx_groups = set()
+                for t, _a, _n in regex_patterns(F, fi):
+                    for gi_, (content, _pos) in enumerate(regex_groups(t)):
+                        if content == "\\d+":
+                            idx_groups.add(gi_ + 1)
+                okm = a and b and strict and len(idx_groups) == 1 and const_int(cap[0]["args"][0]) in idx_groups
                 detail = "update-iff-greater=%s, every entry visited=%s, comparison %s" % (a, b, describe(c))
         ck.ob(RULE, sitestr(fi), okm, "running maximum of the numeric captured index over every matching entry (no early exit)" if okm else "maximum computation not recognised/incorrect: %s" % detail,
               key="findNextIndexForDate|maximum")
